@@ -13,11 +13,11 @@ from . import _simcases as S
 
 RULE = (
     "L1 case = batch of random current distributions (1..400 cells, positions/areas over 4 decades, unit choices um/nm/mm x "
-    "uA/mA/nA), evaluation points off the sheet; loop potentials for random radii/centres/units at off-axis, near-axis and exactly "
+    "uA/mA/nA), evaluation points off the sheet; loop potentials for random radii/centres/units at off-axis, small-elliptic-parameter (rho/a down to 1e-7, r/a up to 1e4, judged relative to |A| there), near-axis and exactly "
     "on-axis points; convert_field round trips H<->B over units. L2 case = one solved device with evaluation points above/below "
     "the film. non-trivial = all clause counters of the case > 0; distinct = distinct seed/spec"
 )
-REQUIRED_COUNTERS = ["biot_savart_checks", "linearity_checks", "scalar_vs_vector_checks", "loop_checks", "loop_on_axis_checks", "convert_checks", "solution_field_checks", "solution_potential_checks"]
+REQUIRED_COUNTERS = ["biot_savart_checks", "linearity_checks", "scalar_vs_vector_checks", "loop_checks", "loop_on_axis_checks", "loop_small_m_checks", "convert_checks", "solution_field_checks", "solution_potential_checks"]
 CASE_TIMEOUT = {"quick": 600, "thorough": 1800}
 ASSUMPTIONS = ["CODATA 2018 mu0 (relative gate 1e-7 admits scipy's CODATA edition)", "sheet currents are the Solution's own current densities (their relation to edge currents is C08/C13)"]
 
@@ -146,6 +146,24 @@ def _l1(spec):
                 viol("loop_potential_nonfinite_on_axis", {"where": name, "nan": int(np.isnan(Aa).sum())})
             elif np.max(np.abs(Aa - refa)) > 1e-6 * scale:
                 viol("loop_potential_wrong_near_axis", {"where": name, "err": float(np.max(np.abs(Aa - refa))), "scale": scale})
+        # small elliptic parameter m = 4 a rho / ((a + rho)^2 + z^2): close to the axis and far from the loop, judged relative to
+        # the local magnitude of A (which is far below mu0 I there)
+        ncl = 12
+        az = rng.uniform(0, 2 * np.pi, ncl)
+        rho_c = R * 10.0 ** rng.uniform(-7, -3.3, ncl)
+        Pclose = np.stack([cen[0] + rho_c * np.cos(az), cen[1] + rho_c * np.sin(az), cen[2] + rng.normal(size=ncl) * R * 10.0 ** rng.uniform(-2, 0.5, ncl)], axis=1)
+        dirs = rng.normal(size=(ncl, 3)); dirs /= np.linalg.norm(dirs, axis=1)[:, None]
+        Pfar = np.array(cen)[None, :] + dirs * (R * 10.0 ** rng.uniform(1.9, 4, ncl))[:, None]
+        for name, PP in (("close_to_axis", Pclose), ("far_field", Pfar)):
+            Aa = np.asarray(current_loop_vector_potential(PP, loop_center=cen, loop_radius=R, current=I, length_units=lu, current_units=cu).to("T * m").magnitude)
+            refa = em.loop_vector_potential(PP * LU[lu], np.array(cen) * LU[lu], R * LU[lu], I * CU[cu])
+            cnt("loop_small_m_checks")
+            scale = units.MU0 * abs(I * CU[cu])
+            errp = np.linalg.norm(Aa - refa, axis=1)
+            gate = 1e-5 * np.linalg.norm(refa, axis=1) + 1e-14 * scale
+            if not np.all(np.isfinite(Aa)) or np.any(errp > gate):
+                i = int(np.argmax(errp / gate)) if np.all(np.isfinite(Aa)) else 0
+                viol("loop_potential_wrong_at_small_m", {"where": name, "point_rel_to_centre_over_R": ((PP[i] - np.array(cen)) / R).tolist(), "got": Aa[i].tolist(), "expected": refa[i].tolist()})
         # --- convert_field round trips
         for _k in range(4):
             v = rng.normal(size=5) * 10.0 ** rng.uniform(-3, 3)
@@ -251,6 +269,17 @@ def _l2(spec):
             sc = np.max(np.abs(ref)) + 1e-300
             if np.max(np.abs(np.asarray(parts["applied"]) - ref)) > 1e-9 * sc:
                 viol("applied_part_wrong", {"units": units_, "time_dependent": bool(avp.time_dependent)})
+    # evaluation points given as an integer-typed array (e.g. np.array([[0, 0, 2]])): same result as the float-typed array
+    ext_i = max(2.0, float(np.ptp(pts[:, 0])))
+    Pi = np.stack([rng.integers(-int(ext_i), int(ext_i) + 1, 6), rng.integers(-int(ext_i), int(ext_i) + 1, 6), int(np.ceil(abs(dev.layer.z0))) + rng.integers(1, 4, 6)], axis=1).astype(np.int64)
+    Pf = Pi.astype(float)
+    C["integer_position_checks"] = C.get("integer_position_checks", 0) + 2
+    fa, fb = (np.asarray(sol.field_at_position(X, vector=True, with_units=False)) for X in (Pi, Pf))
+    if fa.shape != fb.shape or np.max(np.abs(fa - fb)) > 1e-12 * (np.max(np.abs(fb)) + 1e-300):
+        viol("field_depends_on_dtype_of_positions", {"max_abs_diff": float(np.max(np.abs(fa - fb))), "scale": float(np.max(np.abs(fb)))})
+    pa, pb = (np.asarray(sol.vector_potential_at_position(X, with_units=False)) for X in (Pi, Pf))
+    if pa.shape != pb.shape or np.max(np.abs(pa - pb)) > 1e-12 * (np.max(np.abs(pb)) + 1e-300):
+        viol("potential_depends_on_dtype_of_positions", {"max_abs_diff": float(np.max(np.abs(pa - pb))), "scale": float(np.max(np.abs(pb)))})
     rr.cleanup()
     return {"violations": V, "counters": C, "worst": W, "classes": ["L2", "units=" + lu + "/" + fu + "/" + cu],
             "nontrivial": C.get("solution_field_checks", 0) > 0 and C.get("solution_potential_checks", 0) > 0,
